@@ -445,6 +445,17 @@ func run(c *props.Ctx) {
 	}
 }
 
+// golden is the documented wire text of each module (field names as published at the pinned commit):
+// the same rule lists as in roundTrip, written out literally, so that a renamed or re-typed wire field
+// shows even though encoding and decoding stay consistent with each other.
+var golden = map[string]string{
+	"flow":           `[{"id":"1","resource":"r","tokenCalculateStrategy":1,"controlBehavior":1,"threshold":12.5,"relationStrategy":1,"refResource":"q","maxQueueingTimeMs":7,"warmUpPeriodSec":3,"warmUpColdFactor":4,"statIntervalInMs":700,"lowMemUsageThreshold":0,"highMemUsageThreshold":0,"memLowWaterMarkBytes":0,"memHighWaterMarkBytes":0},{"id":"2","resource":"m","tokenCalculateStrategy":2,"controlBehavior":0,"threshold":1,"relationStrategy":0,"refResource":"","maxQueueingTimeMs":0,"warmUpPeriodSec":0,"warmUpColdFactor":0,"statIntervalInMs":0,"lowMemUsageThreshold":1000,"highMemUsageThreshold":10,"memLowWaterMarkBytes":1048576,"memHighWaterMarkBytes":1073741824}]`,
+	"system":         `[{"id":"1","metricType":4,"triggerCount":0.75,"strategy":1},{"id":"2","metricType":0,"triggerCount":3,"strategy":-1}]`,
+	"circuitbreaker": `[{"id":"1","resource":"r","strategy":0,"retryTimeoutMs":3000,"minRequestAmount":10,"statIntervalMs":5000,"statSlidingWindowBucketCount":5,"maxAllowedRtMs":80,"threshold":0.4,"probeNum":3}]`,
+	"isolation":      `[{"id":"1","resource":"r","metricType":0,"threshold":4000000000}]`,
+	"hotspot":        `[{"id":"1","resource":"r","metricType":1,"controlBehavior":1,"paramIndex":-2,"threshold":9,"maxQueueingTimeMs":5,"burstCount":0,"durationInSec":3,"paramsMaxCapacity":77,"specificItems":[{"valKind":0,"valStr":"-3","threshold":1},{"valKind":1,"valStr":"x|y","threshold":2},{"valKind":2,"valStr":"false","threshold":3},{"valKind":3,"valStr":"2.25","threshold":4}]}]`,
+}
+
 // roundTrip: a rule list written in the module's wire format decodes to exactly the rules it describes.
 func roundTrip(c *props.Ctx, m *mod) {
 	check := func(name string, orig interface{}, parse func([]byte) (interface{}, error), norm func(interface{}) interface{}) {
@@ -452,6 +463,14 @@ func roundTrip(c *props.Ctx, m *mod) {
 		if err != nil {
 			c.R.HarnessError(err.Error())
 			return
+		}
+		if g, gerr := parse([]byte(golden[name])); gerr != nil || !reflect.DeepEqual(norm(g), norm(orig)) {
+			c.R.Violate(report.Violation{Signature: signature(m.Name, "round trip"), What: fmt.Sprintf("%s: the documented wire text %s decodes to %+v (err %v), not to the rules it describes", name, golden[name], g, gerr),
+				Scenario: m.Name + " golden wire text", Replay: map[string]string{"module": m.Name, "wire": golden[name]}})
+		}
+		if string(b) != golden[name] {
+			c.R.Violate(report.Violation{Signature: signature(m.Name, "round trip"), What: fmt.Sprintf("%s: the rules are written as %s, the documented wire text is %s", name, b, golden[name]),
+				Scenario: m.Name + " golden wire text", Replay: map[string]string{"module": m.Name, "wire": string(b)}})
 		}
 		got, err := parse(b)
 		c.R.Evaluations++
@@ -483,6 +502,9 @@ func roundTrip(c *props.Ctx, m *mod) {
 		want := []*hotspot.Rule{{ID: "1", Resource: "r", MetricType: hotspot.QPS, ControlBehavior: hotspot.Throttling, ParamIndex: -2, Threshold: 9, MaxQueueingTimeMs: 5, DurationInSec: 3, ParamsMaxCapacity: 77,
 			SpecificItems: map[interface{}]int64{-3: 1, "x|y": 2, false: 3, 2.25: 4}}}
 		b, _ := json.Marshal(wire)
+		if g, gerr := datasource.HotSpotParamRuleJsonArrayParser([]byte(golden["hotspot"])); gerr != nil || !reflect.DeepEqual(g, want) || string(b) != golden["hotspot"] {
+			c.R.Violate(report.Violation{Signature: signature(m.Name, "round trip"), What: fmt.Sprintf("hotspot: the documented wire text %s decodes to %+v (err %v) / the rules are written as %s", golden["hotspot"], g, gerr, b), Scenario: "hotspot golden wire text", Replay: map[string]string{"module": "hotspot", "wire": golden["hotspot"]}})
+		}
 		got, err := datasource.HotSpotParamRuleJsonArrayParser(b)
 		c.R.Evaluations++
 		c.R.Outcome("roundtrip|hotspot")
